@@ -127,8 +127,9 @@ theorem step_src_lift (sys : Sys) (s : St) (k : Nat) (l : SLabel) (hk : k < sys.
     atomic step of `try_send`, for every source state `x` (reachable or not): `enter` refuses iff the
     control block is closed; `check` refuses iff the executor has a stop request; `admitQ` refuses iff
     the policy is not accepting or the bounded queue is at capacity, and otherwise appends the value
-    to the accepted sequence of that source.  None of these steps touches the shared flag. -/
-theorem try_send_refused_iff_full_or_stopped_n (cfg : Cfg) (sr : Bool) (x : Src) (i v : Nat) :
+    to the accepted sequence of that source.  None of these steps touches the shared flag.  (Sources
+    with an int payload; a collection-conflating source never refuses for capacity, see below.) -/
+theorem try_send_refused_iff_full_or_stopped_n (cfg : Cfg) (hnd : isDict cfg = false) (sr : Bool) (x : Src) (i v : Nat) :
     (x.pcs i = .idle →
       ∃ x', lstep cfg sr x (.enter i .try_ v) = some (x', false) ∧
         ((x.started = false ∨ x.closing = true) → x' = x.refuse i .try_ v .refusedClosed) ∧
@@ -145,7 +146,7 @@ theorem try_send_refused_iff_full_or_stopped_n (cfg : Cfg) (sr : Bool) (x : Src)
           x' = x.accept cfg i .try_ v ∧ x'.accepted = x.accepted ++ [(i, v)] ∧ x'.results = x.results)) := by
   refine ⟨?_, ?_, ?_⟩
   · intro hpc
-    simp only [lstep, hpc]
+    simp only [lstep, hpc, hnd, Bool.false_eq_true, if_false]
     by_cases hc : x.started = false ∨ x.closing = true
     · have : (!x.started || x.closing) = true := by rcases hc with h | h <;> simp [h]
       simp only [this, if_true]
@@ -155,14 +156,14 @@ theorem try_send_refused_iff_full_or_stopped_n (cfg : Cfg) (sr : Bool) (x : Src)
       simp only [this, Bool.false_eq_true, if_false]
       exact ⟨_, rfl, fun h => absurd h hc, fun _ => ⟨by simp [upd], rfl⟩⟩
   · intro hpc
-    simp only [lstep, hpc]
+    simp only [lstep, hpc, hnd, Bool.false_eq_true, if_false]
     cases sr with
     | true => simp only [if_true]; exact ⟨_, rfl, fun _ => rfl, fun h => by simp at h⟩
     | false =>
       simp only [Bool.false_eq_true, if_false]
       exact ⟨_, rfl, fun h => by simp at h, fun _ => ⟨by simp [upd], rfl⟩⟩
   · intro hpc
-    simp only [lstep, hpc]
+    simp only [lstep, hpc, hnd, Bool.false_eq_true, if_false]
     cases hacc : x.accepting with
     | false => simp only [Bool.not_false, if_true]; exact ⟨_, rfl, fun _ => rfl, by simp, by simp⟩
     | true =>
@@ -230,10 +231,10 @@ theorem nothing_accepted_after_stop_n (sys : Sys) (s : St) (k : Nat) (hst : (s.s
 /-- **C16 (multi-source, conflating).** A conflating source holds at most one merged state, the most
     recently accepted value; its deliveries are an in-order subsequence of what it accepted. -/
 theorem conflating_delivers_latest_n {sys : Sys} {s : St} (h : Reach sys s) (k : Nat)
-    (hp : (sys.cfg k).policy = .conflating) :
+    (hp : (sys.cfg k).policy = .conflating) (hnd : isDict (sys.cfg k) = false) :
     ((s.src k).deque = [] ∨ ∃ x, (s.src k).deque = [x] ∧ (s.src k).accepted.getLast? = some x) ∧
     (flat (s.src k).delivered ++ (s.src k).deque).Sublist (s.src k).accepted :=
-  ((inv_reach h).src k).confl hp
+  ((inv_reach h).src k).confl hp hnd
 
 /-! ### liveness: every accepted value of every source is eventually delivered (weak fairness) -/
 
@@ -610,6 +611,263 @@ theorem eventually_delivered_n (k : Nat) (hp : (sys.cfg k).policy ≠ .conflatin
 
 end Live
 
+/-! ### conflating with a COLLECTION output: the accumulator of deltas -/
+
+/-- the collection-conflating invariant holds for every `isDict` source in every reachable state -/
+theorem dinv_reach {sys : Sys} {s : St} (h : Reach sys s) (k : Nat) (hd : isDict (sys.cfg k) = true) :
+    DInv (s.src k) := by
+  induction h with
+  | init => exact dinv_init
+  | step l hr hs ih =>
+    cases l with
+    | src j l =>
+      obtain ⟨x, m, hl, _, _, e1, e2, _⟩ := step_src hs
+      by_cases hk : k = j
+      · subst hk; rw [e1]; exact lstep_dinv hd ((inv_reach hr).src k) ih hl
+      · rw [e2 k hk]; exact ih
+    | beginCycle dt =>
+      obtain ⟨_, h2, _⟩ := (step_cpc hs).2.2.2 ⟨dt, rfl⟩
+      rw [h2]; exact ih
+    | pop =>
+      simp only [step] at hs
+      split at hs
+      · rename_i j hc
+        simp only [Option.some.injEq] at hs; subst hs
+        by_cases hk : k = j
+        · subst hk; simp only [setSrc_same]; exact popL_dinv _ hd ih
+        · simp only [setSrc_other _ _ _ _ hk]; exact ih
+      · simp at hs
+    | rearm =>
+      obtain ⟨j, b, _, _, h2, _⟩ := (step_cpc hs).2.2.1 rfl
+      rw [h2]; exact ih
+    | reqStop => simp only [step, Option.some.injEq] at hs; subst hs; exact ih
+
+/-- **C16 (conflating collection) — the lemma seed s51 falsifies.**  An accepted send never clears
+    `pending`: whatever its delta (in particular a delta WITHOUT effect on the accumulator — a lenient
+    removal of an absent key, an empty delta on a valid accumulator), a source that is pending stays
+    pending with the same marker, and a delta without effect leaves the accumulator untouched.  For
+    EVERY source state `x` (reachable or not). -/
+theorem noop_send_keeps_pending (x : Src) (i : Nat) (k : SendKind) (hp : x.deque ≠ []) :
+    (x.acceptD i k).deque = x.deque ∧ (x.acceptD i k).deque ≠ [] ∧
+    ((applyDelta x.acc (x.pay i)).2 = false → (x.acceptD i k).acc = x.acc) := by
+  have he : x.deque.isEmpty = false := by
+    cases hx : x.deque with
+    | nil => exact absurd hx hp
+    | cons _ _ => rfl
+  refine ⟨by simp [Src.acceptD, he], by simp [Src.acceptD, he, hp], ?_⟩
+  intro hno
+  simp only [Src.acceptD, applyDelta] at hno ⊢
+  split at hno
+  · simp at hno
+  · rename_i hne; simp [hne]
+
+/-- … as a statement about the atomic admission step of a collection-conflating source: no `admitQ`
+    (accepted or refused) takes a pending source out of `pending` -/
+theorem admission_keeps_pending {cfg : Cfg} (hd : isDict cfg = true) {sr : Bool} {x x' : Src} {m : Bool} {i : Nat}
+    (hs : lstep cfg sr x (.admitQ i) = some (x', m)) (hp : x.deque ≠ []) : x'.deque = x.deque := by
+  lstep_cases hs <;> first
+    | rfl
+    | exact (noop_send_keeps_pending x i _ hp).1
+    | (exfalso; simp_all)
+
+/-- **C16 (conflating collection).** `pending` (⇔ `pending_items = 1`) holds exactly when some delta
+    accepted since the last take had effect: an accepted effective send that has not been delivered is
+    always counted as pending, and a window of no-ops is not. -/
+theorem conflating_pending_iff_effective {sys : Sys} {s : St} (h : Reach sys s) (k : Nat)
+    (hd : isDict (sys.cfg k) = true) :
+    (s.src k).deque ≠ [] ↔ (foldWindow (s.src k).window).2 = true :=
+  (dinv_reach h k hd).pend
+
+/-- **C16 (conflating collection).** Every value handed to the graph is the merged state of its
+    window: the fold (`foldWindow`, from a fresh accumulator, no-ops skipped, removals before sets) of
+    exactly the deltas accepted in that window, in admission order; the accumulator in between is the
+    fold of the current window; and a delivery only happens for a window with an effective delta. -/
+theorem conflating_delivered_is_window_fold {sys : Sys} {s : St} (h : Reach sys s) (k : Nat)
+    (hd : isDict (sys.cfg k) = true) :
+    (∀ e ∈ (s.src k).cdelivered, e.2.2 = (foldWindow e.2.1).1.getD [] ∧ (foldWindow e.2.1).2 = true) ∧
+    (s.src k).acc = (foldWindow (s.src k).window).1 :=
+  ⟨(dinv_reach h k hd).hist, (dinv_reach h k hd).acc⟩
+
+/-- **C16 (conflating collection).** Nothing accepted is lost or duplicated: the accepted deltas are,
+    in admission order, exactly the deltas of the delivered windows followed by those of the current
+    window (followed by what a stop dropped; nothing while the source is accepting). -/
+theorem conflating_accepted_conserved {sys : Sys} {s : St} (h : Reach sys s) (k : Nat)
+    (hd : isDict (sys.cfg k) = true) :
+    ∃ dropped, (s.src k).caccepted.map (·.2) =
+        ((s.src k).cdelivered.map (·.2.1)).flatten ++ (s.src k).window ++ dropped ∧
+      ((s.src k).accepting = true → dropped = []) :=
+  (dinv_reach h k hd).cons
+
+/-- **C16 (conflating collection): no lost wake-up.**  While an accepted effective delta of a
+    collection-conflating source is undelivered, one of the wake-up reasons of `no_lost_wakeup_n` holds. -/
+theorem no_lost_wakeup_dict {sys : Sys} {s : St} (h : Reach sys s) (k : Nat) (hd : isDict (sys.cfg k) = true)
+    (heff : (foldWindow (s.src k).window).2 = true) :
+    s.flag = true ∨ (∃ k' i kd v, (s.src k').pcs i = .admitted kd v true) ∨
+    (∃ j, s.cpc = .at j ∧ j ≤ k) ∨ (∃ j m, s.cpc = .popped j m ∧ (m = true ∨ j < k)) ∨
+    s.stopReq = true :=
+  no_lost_wakeup_n h k ((dinv_reach h k hd).pend.mpr heff)
+
+/-- **C16 (conflating collection): an accepted EFFECTIVE send is reflected in the next delivery —
+    safety part.**  When the evaluation thread takes from a collection-conflating source `k` whose
+    current window holds an effective delta, it hands over, stamped with the cycle time, exactly the
+    fold of that whole window (which contains the effective delta and everything accepted after it),
+    and a fresh window begins. -/
+theorem take_delivers_window {sys : Sys} {s s' : St} (h : Reach sys s) (k : Nat) (hd : isDict (sys.cfg k) = true)
+    (hc : s.cpc = .at k) (hs : step sys s .pop = some s')
+    (heff : (foldWindow (s.src k).window).2 = true) :
+    (s'.src k).cdelivered = (s.src k).cdelivered ++
+      [(s.time, (s.src k).window, (foldWindow (s.src k).window).1.getD [])] ∧
+    (s'.src k).window = [] ∧ (s'.src k).deque = [] := by
+  have hdi := dinv_reach h k hd
+  simp only [step, hc, Option.some.injEq] at hs
+  subst hs
+  simp only [setSrc_same]
+  obtain ⟨h1, h2, h3, _⟩ := popL_dict_delivers s.time hd hdi (hdi.pend.mpr heff)
+  exact ⟨h1, h2, h3⟩
+
+/-! #### … and the liveness part -/
+
+theorem lstep_cwindow {cfg : Cfg} {sr : Bool} {x x' : Src} {m : Bool} {l : SLabel}
+    (hs : lstep cfg sr x l = some (x', m)) (hl : isStopSLabel l = false) (hst : x.started = true) :
+    x'.cdelivered = x.cdelivered ∧ ∃ t, x'.window = x.window ++ t := by
+  cases l <;> simp [isStopSLabel] at hl <;> lstep_cases hs <;>
+    (try (exfalso; simp_all; done)) <;>
+    (first
+      | exact ⟨rfl, _, rfl⟩
+      | (refine ⟨rfl, [], ?_⟩; simp [Src.refuse, Src.accept]))
+
+/-- what a step does to the window and the delivered history of a collection-conflating source -/
+theorem step_cwindow {sys : Sys} {s s' : St} {l : Label} (hs : step sys s l = some s') (hl : isStopLabel l = false)
+    (k : Nat) (hd : isDict (sys.cfg k) = true) (hdi : DInv (s.src k)) (hst : (s.src k).started = true) :
+    ((s'.src k).cdelivered = (s.src k).cdelivered ∧ ∃ t, (s'.src k).window = (s.src k).window ++ t) ∨
+    ((s'.src k).cdelivered = (s.src k).cdelivered ++
+      [(s.time, (s.src k).window, (foldWindow (s.src k).window).1.getD [])]) := by
+  cases l with
+  | src j l =>
+    obtain ⟨x, m, hls, _, _, e1, e2, _⟩ := step_src hs
+    simp only [isStopLabel] at hl
+    left
+    by_cases hk : k = j
+    · subst hk; rw [e1]; exact lstep_cwindow hls hl hst
+    · rw [e2 k hk]; exact ⟨rfl, [], by simp⟩
+  | beginCycle dt =>
+    obtain ⟨_, h2, _⟩ := (step_cpc hs).2.2.2 ⟨dt, rfl⟩
+    rw [h2]; exact Or.inl ⟨rfl, [], by simp⟩
+  | pop =>
+    simp only [step] at hs
+    split at hs
+    · rename_i j hc
+      simp only [Option.some.injEq] at hs; subst hs
+      by_cases hk : k = j
+      · subst hk
+        simp only [setSrc_same]
+        by_cases hp : (s.src k).deque = []
+        · rw [popL_dict_idle _ hp]; exact Or.inl ⟨rfl, [], by simp⟩
+        · exact Or.inr (popL_dict_delivers s.time hd hdi hp).1
+      · simp only [setSrc_other _ _ _ _ hk]; exact Or.inl ⟨trivial, [], by simp⟩
+    · simp at hs
+  | rearm =>
+    obtain ⟨j, b, _, _, h2, _⟩ := (step_cpc hs).2.2.1 rfl
+    rw [h2]; exact Or.inl ⟨rfl, [], by simp⟩
+  | reqStop => simp [isStopLabel] at hl
+
+section LiveDict
+variable {sys : Sys} (e : Exec sys)
+
+theorem exec_started (hc : e.Continues) (k : Nat) {n m : Nat} (h : n ≤ m)
+    (hst : ((e.σ n).src k).started = true) : ((e.σ m).src k).started = true := by
+  induction m with
+  | zero => have : n = 0 := by omega
+            subst this; exact hst
+  | succ m ih =>
+    by_cases hm : n ≤ m
+    · exact (step_keeps_stop (e.next m) (hc.2.2 m)).2.2.1 k (ih hm)
+    · have : n = m + 1 := by omega
+      subst this; exact hst
+
+theorem exec_delivered_mono (k : Nat) {n m : Nat} (h : n ≤ m) :
+    ∃ t, ((e.σ m).src k).delivered = ((e.σ n).src k).delivered ++ t := by
+  induction m with
+  | zero => have : n = 0 := by omega
+            subst this; exact ⟨[], by simp⟩
+  | succ m ih =>
+    by_cases hm : n ≤ m
+    · obtain ⟨t, ht⟩ := ih hm
+      rcases step_delivered (e.next m) k with h1 | ⟨_, _, vs, _, h2, _⟩
+      · exact ⟨t, by rw [h1, ht]⟩
+      · exact ⟨t ++ [((e.σ m).time, vs)], by rw [h2, ht]; simp⟩
+    · have : n = m + 1 := by omega
+      subst this; exact ⟨[], by simp⟩
+
+/-- the window of source `k` at step `n` is carried, as a prefix, either by the current window (no
+    take yet) or by the window of the FIRST entry delivered after `n` -/
+theorem exec_window_link (hc : e.Continues) (k : Nat) (hd : isDict (sys.cfg k) = true) (n : Nat)
+    (hst : ((e.σ n).src k).started = true) (m : Nat) (h : n ≤ m) :
+    (((e.σ m).src k).cdelivered.length = ((e.σ n).src k).cdelivered.length ∧
+      ((e.σ n).src k).window <+: ((e.σ m).src k).window) ∨
+    (∃ en, ((e.σ m).src k).cdelivered[((e.σ n).src k).cdelivered.length]? = some en ∧
+      ((e.σ n).src k).window <+: en.2.1) := by
+  induction m with
+  | zero => have : n = 0 := by omega
+            subst this; exact Or.inl ⟨rfl, List.prefix_refl _⟩
+  | succ m ih =>
+    by_cases hm : n ≤ m
+    · have hdi := dinv_reach (exec_reach e m) k hd
+      have hstm := exec_started e hc k hm hst
+      rcases step_cwindow (e.next m) (hc.2.2 m) k hd hdi hstm with ⟨c1, t, c2⟩ | c1
+      · rcases ih hm with ⟨i1, i2⟩ | ⟨en, i1, i2⟩
+        · left; rw [c1, c2]; exact ⟨i1, List.IsPrefix.trans i2 (List.prefix_append _ _)⟩
+        · right; rw [c1]; exact ⟨en, i1, i2⟩
+      · rcases ih hm with ⟨i1, i2⟩ | ⟨en, i1, i2⟩
+        · right
+          rw [c1]
+          refine ⟨((e.σ m).time, ((e.σ m).src k).window, (foldWindow ((e.σ m).src k).window).1.getD []), ?_, i2⟩
+          rw [← i1]; simp
+        · right
+          rw [c1]
+          refine ⟨en, ?_, i2⟩
+          have hlt : ((e.σ n).src k).cdelivered.length < ((e.σ m).src k).cdelivered.length := by
+            apply Classical.byContradiction
+            intro hge
+            rw [List.getElem?_eq_none (by omega)] at i1
+            simp at i1
+          rw [List.getElem?_append_left hlt]; exact i1
+    · have : n = m + 1 := by omega
+      subst this; exact Or.inl ⟨rfl, List.prefix_refl _⟩
+
+/-- **C16 (conflating collection): an accepted EFFECTIVE send is reflected in the next delivery.**
+    In every infinite execution without stop, under weak fairness: if at step `n` the current window of
+    the collection-conflating source `k` holds a delta that had effect (i.e. an accepted effective send
+    is undelivered), then later a further entry is delivered by source `k` — the NEXT one after those
+    delivered at `n` — whose window starts with the window at `n` (so it contains that delta and all
+    accepted before it since the last take) and whose value is the fold of that window. -/
+theorem conflating_accepted_effective_delivered (k : Nat) (hd : isDict (sys.cfg k) = true)
+    (hc : e.Continues) (hf : e.Fair) (n : Nat)
+    (heff : (foldWindow ((e.σ n).src k).window).2 = true) :
+    ∃ m, n < m ∧ ∃ en, ((e.σ m).src k).cdelivered[((e.σ n).src k).cdelivered.length]? = some en ∧
+      ((e.σ n).src k).window <+: en.2.1 ∧ en.2.2 = (foldWindow en.2.1).1.getD [] := by
+  have hdn := dinv_reach (exec_reach e n) k hd
+  have hp : ((e.σ n).src k).deque ≠ [] := hdn.pend.mpr heff
+  have hst := (deque_started (exec_reach e n) hp).1
+  obtain ⟨m, hm, hlt⟩ := progress_n e hc hf k n hp
+  have hdm := dinv_reach (exec_reach e m) k hd
+  have hlen : ((e.σ n).src k).cdelivered.length < ((e.σ m).src k).cdelivered.length := by
+    rw [← hdn.count, ← hdm.count]
+    obtain ⟨t, ht⟩ := exec_delivered_mono e k (show n ≤ m by omega)
+    rw [ht]
+    simp only [dcount, ht, flat_append, List.length_append] at hlt ⊢
+    have : t ≠ [] := by
+      intro h0; subst h0; simp [flat] at hlt
+    have : t.length ≠ 0 := by
+      intro h0; exact this (List.eq_nil_of_length_eq_zero h0)
+    omega
+  rcases exec_window_link e hc k hd n hst m (by omega) with ⟨i1, _⟩ | ⟨en, i1, i2⟩
+  · omega
+  · refine ⟨m, hm, en, i1, i2, ?_⟩
+    exact (hdm.hist en (List.mem_of_getElem? i1)).1
+
+end LiveDict
+
 /-! ### the seeded variant: sampling the flag per source loses a wake-up -/
 
 theorem reach_runLabels (sys : Sys) (s : St) (h : Reach sys s) (ls : List Label) : Reach sys (runLabels sys s ls) := by
@@ -650,10 +908,8 @@ def lostSt : St := runPerSource sys2 {} lostLabels
 def keptSt : St := runLabels sys2 {} lostLabels
 
 theorem lostLabels_enters (k i : Nat) (h : ¬(i = 0 ∧ (k = 0 ∨ k = 1))) :
-    ∀ l ∈ lostLabels, ∀ kd v, l ≠ .src k (.enter i kd v) := by
-  intro l hl kd v he
-  subst he
-  simp [lostLabels, sendL] at hl
+    ∀ l ∈ lostLabels, l.entersBy k i = false := by
+  simp [lostLabels, sendL, Label.entersBy, SLabel.entersBy]
   omega
 
 theorem lostSt_quiet : ∀ k i, (lostSt.src k).pcs i = .idle := by
@@ -721,6 +977,119 @@ theorem one_reset_per_cycle_keeps_wakeup :
     flat ((runLabels sys2 keptSt [.beginCycle 0, .pop, .rearm, .pop, .rearm]).src 0).delivered = [(0, 1), (0, 2)] :=
   ⟨reach_runLabels _ _ .init _, by decide, by decide, by decide, by decide⟩
 
+/-! ### the seeded variant s51: the conflating `pending` flag assigned instead of OR-ed -/
+
+theorem reachS51_run (sys : Sys) (s : St) (h : ReachS51 sys s) (ls : List Label) : ReachS51 sys (runS51 sys s ls) := by
+  induction ls generalizing s with
+  | nil => exact h
+  | cons l ls ih =>
+    simp only [runS51]
+    cases hs : stepS51 sys s l with
+    | none => exact ih s h
+    | some s' => exact ih s' (.step l h hs)
+
+/-- with the flag down and the loop idle, the evaluation thread on its own changes no source -/
+theorem asleep_stays_step (sys : Sys) (ls : List Label) (hl : ∀ l ∈ ls, isConsumerLabel l = true) (s : St)
+    (hf : s.flag = false) (hc : s.cpc = .idle) : (runLabels sys s ls).src = s.src := by
+  induction ls generalizing s with
+  | nil => rfl
+  | cons l ls ih =>
+    have hl' : ∀ l' ∈ ls, isConsumerLabel l' = true := fun l' h => hl l' (List.mem_cons_of_mem _ h)
+    have hl0 := hl l (List.mem_cons_self ..)
+    simp only [runLabels]
+    cases hs : step sys s l with
+    | none => exact ih hl' s hf hc
+    | some s' =>
+      have key : s'.flag = false ∧ s'.cpc = .idle ∧ s'.src = s.src := by
+        cases l with
+        | src k l => simp [isConsumerLabel] at hl0
+        | reqStop => simp [isConsumerLabel] at hl0
+        | pop => simp [step, hc] at hs
+        | rearm => simp [step, hc] at hs
+        | beginCycle dt =>
+          simp only [step, hc, hf] at hs
+          split at hs
+          · simp at hs
+          · split at hs
+            · simp only [Option.some.injEq] at hs; subst hs; exact ⟨by simp, by simp, rfl⟩
+            · simp only [Option.some.injEq] at hs; subst hs; exact ⟨rfl, by simp, rfl⟩
+      rw [ih hl' s' key.1 key.2.1, key.2.2]
+
+/-- one conflating source with a `TSD` output -/
+def sysD : Sys := { n := 1, cfg := fun _ => { policy := .conflating, dict := true } }
+
+/-- a whole `try_send` of the collection delta `d` to source `k` by its producer `i` -/
+def sendD (k i : Nat) (d : Delta) : List Label :=
+  [.src k (.enterD i .try_ d), .src k (.check i), .src k (.admitQ i), .src k (.mark i)]
+
+/-- `{1: 5}` -/
+def dSet15 : Delta := { sets := [(1, 5)] }
+/-- remove key 9 (lenient; the fresh accumulator does not hold it) -/
+def dRem9 : Delta := { removes := [9] }
+
+/-- the seeded scenario: the source starts; `{1:5}` is sent (accepted, effective, wakes the loop),
+    then `remove 9` (accepted, NO effect); then one evaluation cycle -/
+def s51Labels : List Label :=
+  [.src 0 .start] ++ sendD 0 0 dSet15 ++ sendD 0 0 dRem9 ++ [.beginCycle 0, .pop, .rearm]
+
+/-- … under `pending = modified` (the seeded code) -/
+def s51St : St := runS51 sysD {} s51Labels
+/-- … and under `pending = pending || modified` (the real code) -/
+def oredSt : St := runLabels sysD {} s51Labels
+
+theorem s51Labels_enters (k i : Nat) (h : ¬(i = 0 ∧ k = 0)) : ∀ l ∈ s51Labels, l.entersBy k i = false := by
+  simp [s51Labels, sendD, Label.entersBy, SLabel.entersBy]
+  omega
+
+theorem s51St_quiet : ∀ k i, (s51St.src k).pcs i = .idle := by
+  intro k i
+  by_cases h : i = 0 ∧ k = 0
+  · obtain ⟨rfl, rfl⟩ := h; decide
+  · exact runS51_pcs_idle sysD k i s51Labels (s51Labels_enters k i h) {} rfl
+
+/-- **Counter-lemma (seeded defect s51).**  If `try_send` ASSIGNS the conflating `pending` flag from
+    "this delta modified the accumulator" instead of OR-ing it in, an accepted effective delta is
+    lost: there is a reachable state (one collection-conflating source, the schedule `s51Labels`) in
+    which the source has accepted `[{1:5}, remove 9]`, the first of which had effect, a full evaluation
+    cycle has run, and nothing was delivered; the source is running and reports nothing pending although
+    its accumulator still holds `{1:5}`; the flag is down, the loop idle, no stop requested, every
+    producer has returned — and the evaluation thread alone never delivers the value, however many
+    cycles it starts.  (`noop_send_keeps_pending` fails for `acceptDSeeded`.) -/
+theorem assigning_pending_loses_accepted_delta :
+    ∃ (sys : Sys) (s : St), ReachS51 sys s ∧ isDict (sys.cfg 0) = true ∧
+      (s.src 0).caccepted.map (·.2) = [dSet15, dRem9] ∧ (applyDelta none dSet15).2 = true ∧
+      (foldWindow (s.src 0).window).2 = true ∧
+      (s.src 0).cdelivered = [] ∧ (s.src 0).deque = [] ∧ (s.src 0).acc = some [(1, 5)] ∧
+      (s.src 0).accepting = true ∧ s.time = 1 ∧
+      s.flag = false ∧ s.cpc = .idle ∧ s.stopReq = false ∧ (∀ k i, (s.src k).pcs i = .idle) ∧
+      (∀ ls : List Label, (∀ l ∈ ls, isConsumerLabel l = true) → ((runLabels sys s ls).src 0).cdelivered = []) := by
+  refine ⟨sysD, s51St, reachS51_run _ _ .init _, by decide, by decide, by decide, by decide, by decide, by decide,
+    by decide, by decide, by decide, by decide, by decide, by decide, s51St_quiet, ?_⟩
+  intro ls hl
+  rw [asleep_stays_step sysD ls hl s51St (by decide) (by decide)]
+  decide
+
+/-- the same schedule under the real code (`acceptD`: `pending || modified`): the no-op keeps the
+    pending flag, and the cycle delivers the fold of the whole window, `{1:5}` -/
+theorem oring_pending_delivers_accepted_delta :
+    Reach sysD oredSt ∧ (oredSt.src 0).cdelivered = [(1, [dSet15, dRem9], [(1, 5)])] ∧
+    (oredSt.src 0).deque = [] ∧ (oredSt.src 0).window = [] ∧ oredSt.flag = false :=
+  ⟨reach_runLabels _ _ .init _, by decide, by decide, by decide, by decide⟩
+
+/-- the seeded admission really violates `noop_send_keeps_pending`: pending source, delta without
+    effect, and the marker is gone -/
+example : ((runS51 sysD {} (s51Labels.take 7)).src 0).deque ≠ [] ∧
+    (applyDelta ((runS51 sysD {} (s51Labels.take 7)).src 0).acc dRem9).2 = false ∧
+    ((runS51 sysD {} (s51Labels.take 8)).src 0).deque = [] ∧
+    ((runLabels sysD {} (s51Labels.take 8)).src 0).deque ≠ [] := by decide
+
+/-- collection deltas: removals before sets, the empty delta validates only a fresh accumulator, a
+    removal of an absent key has no effect; a window of mixed deltas and its fold -/
+example : foldWindow [{ sets := [(4, 4), (5, 5)] }, { removes := [4], sets := [(6, 6)] }, {}] = (some [(5, 5), (6, 6)], true) ∧
+    foldWindow [{}] = (some [], true) ∧ foldWindow [{ removes := [7] }] = (none, false) ∧
+    foldWindow [{ sets := [(3, 1)] }, { removes := [3] }] = (some [], true) ∧
+    foldWindow [{ removes := [1], sets := [(1, 1)] }] = (some [(1, 1)], true) := by decide
+
 /-! ### non-vacuity -/
 
 /-- source 0: capacity 1, source 1: burst with capacity 2 -/
@@ -768,10 +1137,8 @@ def xσ (n : Nat) : St := if n ≤ 9 then runLabels sys2 xS0 (xLabs.take n) else
 def xLab (n : Nat) : Label := xLabs.getD n (.beginCycle 0)
 
 theorem xLabs_enters (k i : Nat) (h : ¬(i = 0 ∧ k = 1)) :
-    ∀ l ∈ ([.src 0 .start, .src 1 .start] ++ xLabs : List Label), ∀ kd v, l ≠ .src k (.enter i kd v) := by
-  intro l hl kd v he
-  subst he
-  simp [xLabs, sendL] at hl
+    ∀ l ∈ ([.src 0 .start, .src 1 .start] ++ xLabs : List Label), l.entersBy k i = false := by
+  simp [xLabs, sendL, Label.entersBy, SLabel.entersBy]
   omega
 
 theorem xEnd_eq : xEnd = runLabels sys2 {} ([.src 0 .start, .src 1 .start] ++ xLabs) := rfl
